@@ -1,5 +1,6 @@
 \* exhaustive: lengths 1..4, F 1..3, limits {0,1,3}, proportions {0,1/4,1/2,1}, counts {0,1,2},
-\* max warps {0, 0.5, 1, 2.5, 10} frames; applications on T <= 3, F <= 2 with <= 2 masks per axis
+\* max warps {0, 0.5, 1, 2.5, 10} frames; applications on T <= 3, F <= 2 with <= 2 masks per axis;
+\* resampler reads of a 2 x 2 plane with cells in {-3, 0, 5} at every position in thirds of a cell from -1 to 2
 INIT Init
 NEXT Next
 CONSTANTS
@@ -12,11 +13,15 @@ CONSTANTS
   ApplyT = 3
   ApplyF = 2
   ApplyMasks = 2
+  HullVals = {0, 3, 8}
+  HullOff = 3
+  HullDen = 3
 INVARIANT TimeDrawInBounds
 INVARIANT FreqDrawInBounds
 INVARIANT WarpDrawInBounds
 INVARIANT Tight
 INVARIANT ApplyIsMasked
 INVARIANT GridAbstraction
+INVARIANT HullAbstraction
 INVARIANT Export
 CHECK_DEADLOCK FALSE
